@@ -31,7 +31,12 @@ def main():
         if spec.get('corpus', True) and meta.get('corpus') and not meta.get('corpus_ok'):
             for e in meta.get('errors', []):
                 sys.stderr.write(e['stderr'][-3000:] + '\n')
-            raise core.Broken('the corpus does not compile against /repo (see stderr)')
+            failed = meta.get('corpus_failed')
+            if not failed or pid != 'C15' and len(failed) > 4:
+                raise core.Broken('the corpus does not compile against /repo (see stderr)')
+            # some families of well-formed corpus programs are rejected by the current tree: C15 reports that; the other checks give
+            # their verdict on the families that still compile (their instance floors decide whether that is enough)
+            log('corpus crates that do not compile against /repo: %s' % ', '.join(failed))
         ctx = core.Ctx(fdir, meta, tier, log)
         rep = core.Report(pid)
         extra = spec['run'](ctx, rep) or {}
